@@ -96,7 +96,7 @@ p_socket_address_new_from_native (pconstpointer	native,
 	PSocketAddress	*ret;
 	puint16		family;
 
-	if (P_UNLIKELY (native == NULL || len == 0))
+	if (P_UNLIKELY (native == NULL || len < sizeof (struct sockaddr)))
 		return NULL;
 
 	if (P_UNLIKELY ((ret = p_malloc0 (sizeof (PSocketAddress))) == NULL))
